@@ -12,39 +12,75 @@ import (
 	"verifmc/hist"
 )
 
+// conflictPairs: per data type, pairs of edit kinds of which one leaves
+// metadata behind (tombstone, dead position slot, split node, style) that the
+// other, made concurrently by a client that has not seen it, anchors on. A
+// snapshot-fed replica must integrate that concurrent edit exactly like a
+// change-fed one, so the snapshot has to carry the metadata.
+var conflictPairs = []family{
+	{"arr", []string{"init.a"}, []string{"a.mv0L+a.ins0", "a.mv0L+a.mvL0", "a.delL+a.insL", "a.del0+a.ins0", "a.setL+a.insL"}},
+	{"txt", []string{"init.t"}, []string{"t.delM+t.insM", "t.delF+t.styF", "t.insM+t.styB", "t.repM+t.insM"}},
+	{"tree", []string{"init.tr"}, []string{"tr.delP0+tr.insT1", "tr.delT0+tr.insT0", "tr.sty0+tr.delT0", "tr.repP0+tr.insT1"}},
+	{"obj", []string{"init.o"}, []string{"o.del1+o.setin1", "o.setobj1+o.setin1", "o.setarr1+o.pushin1"}},
+	{"cnt", []string{"init.c"}, []string{"c.inc1+c.reset"}},
+}
+
 func c02Scenarios(tier string) []*hist.Scenario {
 	var out []*hist.Scenario
 	cfgs := [][2]int64{{1, 1}, {2, 2}, {2, 1}}
-	add := func(fam string, init, al []string, n, k, y int, ti [2]int64) {
-		out = append(out, &hist.Scenario{
-			Name: fmt.Sprintf("c02/%s/%s/snap%d-%d/N%dL1K%dY%dE1", fam, strings.Join(al, "+"), ti[0], ti[1], n, k, y),
-			N:    n, Late: 1, Init: init, Alphabet: al, K: k, Y: y,
-			Env: []string{"evict"}, E: 1,
+	add := func(fam string, init, al []string, n, k, y, e, maxPer int, ti [2]int64) {
+		sc := &hist.Scenario{
+			Name: fmt.Sprintf("c02/%s/%s/snap%d-%d/N%dL1K%dY%dE%d", fam, strings.Join(al, "+"), ti[0], ti[1], n, k, y, e),
+			N:    n, Late: 1, Init: init, Alphabet: al, K: k, Y: y, MaxPerClient: maxPer,
 			Cfg: hist.Config{Threshold: ti[0], Interval: ti[1]},
-		})
+		}
+		if e > 0 {
+			sc.Env, sc.E = []string{"evict"}, e
+		}
+		out = append(out, sc)
 	}
+	// Sizes (histories in normal form before no-effect pruning, `vcheck
+	// countshape`): N1L1K2Y2E1 2.1k, N1L1K2Y3E1 9.0k, N2L1K2Y2(max 1 per client)
+	// 2.5k for a pair of kinds, N2L1K2Y3 13.3k. Smallest shapes first.
 	if tier == "quick" {
 		// one writer + one late (snapshot-fed) client which then edits concurrently
 		for _, f := range coreFamilies() {
 			for _, op := range f.ops {
-				for _, ti := range cfgs[:2] {
-					add(f.name, f.init, []string{op}, 1, 2, 3, ti)
-				}
+				add(f.name, f.init, []string{op}, 1, 2, 2, 1, 0, cfgs[0])
+			}
+		}
+		// two writers with concurrent edits + the late client
+		for _, f := range conflictPairs {
+			for _, p := range f.ops {
+				add(f.name, f.init, strings.Split(p, "+"), 2, 2, 2, 0, 1, cfgs[0])
+			}
+		}
+		for _, f := range coreFamilies() {
+			for _, op := range f.ops[:2] {
+				add(f.name, f.init, []string{op}, 1, 2, 2, 1, 0, cfgs[1])
 			}
 		}
 		return out
 	}
-	for _, f := range families() {
-		for _, al := range pairs(f.ops) {
-			for _, ti := range cfgs {
-				add(f.name, f.init, al, 1, 3, 3, ti)
+	for _, f := range coreFamilies() {
+		for _, op := range f.ops {
+			for _, ti := range cfgs[:2] {
+				add(f.name, f.init, []string{op}, 1, 2, 3, 1, 0, ti)
 			}
 		}
 	}
-	for _, f := range coreFamilies() {
-		for _, op := range f.ops {
+	for _, f := range conflictPairs {
+		for _, p := range f.ops {
 			for _, ti := range cfgs {
-				add(f.name, f.init, []string{op}, 2, 3, 4, ti)
+				add(f.name, f.init, strings.Split(p, "+"), 2, 2, 3, 0, 1, ti)
+			}
+		}
+	}
+	// every pair of core kinds of one data type, two writers + late client
+	for _, f := range coreFamilies() {
+		for _, al := range pairs(f.ops) {
+			if len(al) == 2 {
+				add(f.name, f.init, al, 2, 2, 2, 0, 1, cfgs[0])
 			}
 		}
 	}
@@ -182,12 +218,14 @@ func init() {
 	spec := &HSpec{ID: "C02", Scenarios: c02Scenarios, Eval: c02Eval}
 	registerH(spec, &Check{
 		Level: "exploration",
-		Rule: "every normal-form history of <=K edits, <=Y syncs, one late attach at any position and <=1 snapshot-cache eviction at any position, " +
-			"for project (snapshot threshold, interval) in {(1,1),(2,2)} (thorough: also (2,1)); edits after the late attach land on the snapshot-fed replica; " +
+		Rule: "every normal-form history of <=K edits, <=Y syncs, one late attach at any position and <=E snapshot-cache evictions at any position, " +
+			"for project (snapshot threshold, interval) in {(1,1),(2,2)} (thorough: also (2,1)); shapes: one writer + the late (snapshot-fed) client, every core edit kind; " +
+			"two writers making concurrent edits of a conflicting pair of kinds (one leaves a tombstone / dead position slot / split / style the other anchors on) + the late client " +
+			"(thorough: every pair of core kinds of a data type); edits after the late attach land on the snapshot-fed replica; " +
 			"oracle: snapshot-fed and change-fed replicas and the server rebuild agree after the quiescent closure and whenever two replicas are at the same checkpoint, " +
 			"clone==root, and the server rebuild at EVERY serverSeq 1..head (cold cache, warm descending, warm ascending) equals an independent one-by-one replay of the stored change log; " +
 			"non-trivial = concurrent edits by different clients",
 		Assume:      []string{"memdb backend", "small-scope bounds per scenario name"},
-		QuickBudget: 170 * time.Second,
+		QuickBudget: 300 * time.Second,
 	})
 }
